@@ -136,11 +136,11 @@ def queries():
         bu = ["src/ec/ecdsa_i%d_bits.c" % impl] + ["src/int/i%d_%s.c" % (impl, x) for x in ("decode", "rshift", "bitlen")]
         for (bl, h0, h1) in ((13, 0, 4), (15, 0, 4), (16, 0, 4), (17, 0, 5), (31, 0, 6), (32, 0, 6), (33, 0, 7),
                              (256, 0, 1), (256, 20, 20), (256, 31, 33), (256, 48, 48), (256, 64, 64),
-                             (384, 0, 0), (384, 32, 32), (384, 47, 49), (384, 64, 64),
-                             (521, 0, 0), (521, 32, 32), (521, 64, 64), (521, 65, 67)):
+                             (384, 0, 0), (384, 32, 32), (384, 48, 48), (384, 47, 49), (384, 64, 64),
+                             (521, 0, 0), (521, 32, 32), (521, 64, 64), (521, 66, 66), (521, 65, 67)):
             qs.append(Q("bits2int-i%d-q%d-h%d-%d" % (impl, bl, h0, h1), "C11_bits.c", units=bu,
                         defs=["-DIMPL=%d" % impl, "-DBITLEN=%d" % bl, "-DHLMIN=%d" % h0, "-DHLMAX=%d" % h1],
-                        unwind=max(bl + 40, 80),
+                        unwind=max(bl + 40, 80), tier="thorough" if h1 - h0 >= 2 and bl >= 384 else "quick", timeout=900 if h1 - h0 >= 2 and bl >= 384 else 240,
                         desc="br_ecdsa_i%d_bits2int == leftmost min(8*hlen, %d) bits of the hash, every hash of every length %d..%d; stays inside the callers' array size" % (impl, bl, h0, h1)))
     # ---- 3. argument gates of the EC implementations ----
     pu = ["src/ec/ec_prime_i15.c"] + CURVE_UNITS + ["src/int/i15_%s.c" % x for x in ("decmod", "add", "sub", "encode", "iszero")] + ["src/codec/ccopy.c"]
